@@ -155,8 +155,10 @@ func projOf(table []segVal, hist []int) []int {
 	canon := make([]int, len(table))
 	for i, s := range table {
 		key := fmt.Sprintf("exact|%v|%v|%v", s.Src, s.Dst, s.UDH)
-		if kind, ref, total, seq := specHeader(s.UDH); kind == hOK {
-			key = fmt.Sprintf("seg|%v|%v|%d|%d|%d", s.Src, s.Dst, ref, total, seq)
+		if d := s.UDH[0]; len(d) >= 3 {
+			key = fmt.Sprintf("seg|%v|%v|%d|%d|%d", s.Src, s.Dst, int(d[0]), d[1], d[2])
+		} else if d := s.UDH[8]; len(d) >= 4 {
+			key = fmt.Sprintf("seg|%v|%v|%d|%d|%d", s.Src, s.Dst, int(d[0])<<8|int(d[1]), d[2], d[3])
 		}
 		if j, ok := first[key]; ok {
 			canon[i] = j
@@ -565,13 +567,15 @@ func referenceCases(r *Run, table []segVal, hist []int, obs combineObs) {
 				sub = append(sub, obs.Trace[j])
 			}
 		}
+		r.Case(fmt.Sprintf("set-spec key-of-entry-%d %s", ki, histInput(table, hist)),
+			fmt.Sprintf("chk_setspec %s %s %s %d%%nat %s", coqSegTable(table), coqNatList(hist), coqNatList(projOf(table, hist)), ki, coqTrace(projOf(table, hist), sub)))
 		r.Case(fmt.Sprintf("reference key-of-entry-%d %s", ki, histInput(table, hist)),
 			fmt.Sprintf("chk_reference %s %s %s %d%%nat %s", coqSegTable(table), coqNatList(hist), coqNatList(projOf(table, hist)), ki, coqTrace(projOf(table, hist), sub)))
 	}
 }
 
 func corrC10(r *Run) {
-	r.Import("Model.Combiner")
+	r.Import("Model.CombinerRun")
 	r.PerShard(120)
 	r.Rule = "arrival histories of deliver_sm PDUs through pdu.CombineMultipartDeliverSM: corpus (pre-repair witnesses) first; " +
 		"all distinct orderings of the segments of m concurrent messages of N parts (m,N small) with duplicated segments, over every adversarial key set; " +
@@ -772,7 +776,7 @@ func corrC10(r *Run) {
 			bucket = "random/malformed-numbering"
 		}
 		obs := c10One(r, table, tableKey(table), hist, bucket, nil, true)
-		if i%3 == 0 {
+		if i%6 == 0 {
 			referenceCases(r, table, hist, obs)
 		}
 		if i == 0 {
